@@ -61,7 +61,7 @@ P = {
              note="lock-operation granularity; weak memory not modelled (no atomics in the crate). Both assumptions are re-established on the examined tree by section sync_inventory: a shared-state primitive outside the hooked RwLocks (Mutex, atomic, OnceLock, thread_local, static mut ...) makes the run report NOT-EXHAUSTIVE / exhaustive=false, never a violation (seeded change C16-I, DESIGN 6 round 5)", ref="5/C17"),
  "C18": dict(engine="E5", technique="explicit-state BFS over message delivery orders (subset lattice), states materialised by replaying histories on the real protocol objects",
              text="For n=2..3 (4 thorough) every delivery order of every protocol round is explored; canonical states reached by different histories must agree, incomplete parties must refuse to finish, final outputs are checked against the summed key / the plaintext.",
-             note="n>=5 only along a covering family (labelled non-exhaustive)", ref="5/C18"),
+             note="n>=5 only along a covering family (labelled non-exhaustive); every sender's round message is produced at its first delivery in the history, i.e. possibly after that party has received (send-after-receive orders are covered)", ref="5/C18"),
  "C19": dict(engine="E1", technique="bounded exhaustive enumeration: all indices x all pack counts x all trace depths x three schemes",
              text="extract/assemble for every index and representation, field trace for every l, packing for every k<=N: decrypted coefficient placement compared with the shadow polynomial.",
              note="N in {4,8,16} (thorough to 64)", ref="5/C19"),
